@@ -2,8 +2,8 @@ import RzmqModel.Gen.Life
 /-!
 # M15 `SendTx` — a message handed to `send()` frame by frame, with the caller dropping futures
 
-Mirrors the frame-by-frame branch of `DealerSocket::send` (`DealerSendTransaction`) and of `RouterSocket::send`
-(`current_send_target` / `ActiveFragmentedSend`).  A frame with MORE is put into the transaction and the call returns;
+Mirrors the frame-by-frame branch of `DealerSocket::send` (`DealerSendTransaction`), of `RouterSocket::send`
+(`current_send_target` / `ActiveFragmentedSend`) and of `PubSocket::send` / `PushSocket::send` (`pending_parts`).  A frame with MORE is put into the transaction and the call returns;
 the last frame completes the message, whose hand-over to the peer's pipe is the only thing that is awaited.  A caller may
 drop that future while it is pending (`cancel`): no code of the socket runs then, so whatever state the socket was left
 in before the await is the state it stays in.
@@ -74,5 +74,10 @@ def dealerTxCfg : TxCfg :=
   { buffersUntilLast := Gen.dealerTxBuffersUntilLast == 1, closesBeforeAwait := Gen.dealerTxClosedBeforeAwait == 1 }
 def routerTxCfg : TxCfg :=
   { buffersUntilLast := Gen.routerTxBuffersUntilLast == 1, closesBeforeAwait := Gen.routerTxClosedBeforeAwait == 1 }
+/-- PUB and PUSH keep the frames in `pending_parts` and take them out before they await (flags of push_socket.rs are C02's) -/
+def pubTxCfg : TxCfg :=
+  { buffersUntilLast := Gen.pubTxBuffersUntilLast == 1, closesBeforeAwait := Gen.pubTxClosedBeforeAwait == 1 }
+def pushTxCfg : TxCfg :=
+  { buffersUntilLast := Gen.pushHoldsPartsUntilLast == 1, closesBeforeAwait := Gen.pushHoldsPartsUntilLast == 1 }
 
 end Rzmq
